@@ -599,6 +599,11 @@ class Interp:
                 return ev(n.args[0])
             if isinstance(n, ast.Call) and isinstance(n.func, ast.Name) and n.func.id == "property" and len(n.args) >= 1:
                 return ("propobj", ev(n.args[0]))
+            if isinstance(n, ast.Call) and not n.keywords and len(n.args) == 1:
+                from .astutil import xdotted
+                if xdotted(n.func, cls.module) in ("types.MappingProxyType", "dict", "tuple", "frozenset") and isinstance(n.args[0], (ast.Dict, ast.Tuple, ast.List, ast.Set)):
+                    # a read-only view / copy of a literal table: the table
+                    return ev(n.args[0]) if not isinstance(n.args[0], ast.Set) else ("tuple", tuple(ev(e) for e in n.args[0].elts))
             if isinstance(n, ast.Call) and isinstance(n.func, ast.Name) and not n.keywords:
                 r = self.facts.resolve_name(cls.module, n.func.id)
                 if r is not None and r[0] == "func" and len(self.stack) < 6:
@@ -628,6 +633,12 @@ class Interp:
             v = ev(node)
         except (ValueError, RecursionError):
             v = None
+        if v is None and isinstance(node, (ast.Call, ast.DictComp, ast.ListComp, ast.SetComp, ast.GeneratorExp, ast.BinOp)):
+            # a table computed once from constants (a comprehension, a read-only view of one): its value
+            try:
+                v = self._value_term(self._const_global(cls.module, node))
+            except (ValueError, RecursionError):
+                v = None
         cache[key] = v
         return v
 
@@ -780,6 +791,8 @@ class Interp:
                 return tuple(r)
             if fn in ("tuple", "list", "frozenset", "sorted") and len(args) == 1 and isinstance(args[0], tuple):
                 return tuple(sorted(args[0])) if fn == "sorted" else args[0]
+            if fn == "MappingProxyType" and len(args) == 1 and isinstance(args[0], dict):
+                return args[0]          # a read-only view of the table
             if fn == "dict" and len(args) == 1 and isinstance(args[0], (dict, tuple)):
                 try:
                     return dict(args[0])
@@ -1401,6 +1414,39 @@ class Interp:
                     gtree.append(("yieldfrom" if is_from else "yield", x, line))
             self.run_generator(g, st, tree, inner, n)
             return NONE
+        if isinstance(n.value, (ast.GeneratorExp, ast.ListComp)) and self._map_source(v) is not None:
+            # ``yield from (f(x) for x in xs)`` is ``for x in xs: yield f(x)``
+            tmp, el = f"__yf{n.lineno}_{n.col_offset}", f"__yfe{n.lineno}_{n.col_offset}"
+            st.env[tmp] = v
+            loop = ast.For(target=ast.Name(id=el, ctx=ast.Store()), iter=ast.Name(id=tmp, ctx=ast.Load()),
+                           body=[ast.Expr(value=ast.Yield(value=ast.Name(id=el, ctx=ast.Load())))], orelse=[])
+            ast.copy_location(loop, n)
+            for x_ in ast.walk(loop):
+                ast.copy_location(x_, n)
+            ast.fix_missing_locations(loop)
+            self.exec_block([loop], st, tree)
+            st.env.pop(tmp, None)
+            st.env.pop(el, None)
+            return NONE
+        if isinstance(n.value, (ast.GeneratorExp, ast.ListComp)) and isinstance(g, HList) and len(g.segs) == 1 and g.segs[0][0] == "loop" \
+                and len(g.segs[0][2]) == 1 and g.segs[0][2][0][0] == "e" and not self.loops.get(g.segs[0][1], {}).get("conds"):
+            # the elements are computed in the comprehension's loop, already in the tree: each is yielded there, as computed
+            lid_ = g.segs[0][1]
+            node_ = next((x for x in reversed(tree) if x[0] == "loop" and x[1] == lid_), None)
+            if node_ is not None:
+                if hook is not None:
+                    hook(g.segs[0][2][0][1], st, node_[2], n.lineno)
+                else:
+                    node_[2].append(("yield", g.segs[0][2][0][1], n.lineno))
+                return NONE
+        if isinstance(n.value, (ast.GeneratorExp, ast.ListComp, ast.List, ast.Tuple)) and isinstance(g, HList) and g.segs and all(sg[0] == "e" for sg in g.segs):
+            # a fixed number of elements (a display, or a comprehension over one that was unrolled): yielded one by one
+            for sg in g.segs:
+                if hook is not None:
+                    hook(sg[1], st, tree, n.lineno)
+                else:
+                    tree.append(("yield", sg[1], n.lineno))
+            return NONE
         if hook is not None:
             try:
                 hook(v, st, tree, n.lineno, True)
@@ -1725,6 +1771,8 @@ class Interp:
         if k == "lambda" and len(f) > 3:
             fi, cenv = self.closures[f[3]]
             return self.call_function(st, fi, args, kwargs, n, tree, closure_env=cenv)
+        if k == "rawfunc":
+            return self.call_function(st, self._raw_funcs[f[2]], args, kwargs, n, tree, raw=True)
         if k == "ntreplace" and not args:
             cls = self.facts.cls(f[2])
             names = cls.nt_fields()
@@ -2191,7 +2239,37 @@ class Interp:
         from .astutil import walk_no_nested_defs
         return any(isinstance(x, (ast.Yield, ast.YieldFrom)) for x in walk_no_nested_defs(fi.node))
 
-    def call_function(self, st: State, fi: FuncInfo, args, kwargs, n, tree, closure_env=None):
+    def _decorated(self, fi: FuncInfo, n=None):
+        """What the name of a function decorated with functions of the repository is bound to: ``d1(d2(f))``; None when the
+        function has no such decorators."""
+        cache = self.__dict__.setdefault("_deco_cache", {})
+        if id(fi) in cache:
+            return cache[id(fi)]
+        cache[id(fi)] = None
+        decos = []
+        for d in fi.node.decorator_list:
+            if isinstance(d, ast.Name):
+                r = self.facts.resolve_name(fi.module, d.id)
+                if r is not None and r[0] == "func":
+                    decos.append(r[1])
+        if decos:
+            f = ("rawfunc", fi.qualname, id(fi))
+            self.__dict__.setdefault("_raw_funcs", {})[id(fi)] = fi
+            dummy = FuncInfo(fi.module, None, ast.parse("def _module_body(): pass").body[0])
+            self.stack.append(Activation(dummy, len(self.stack)))
+            try:
+                for d in reversed(decos):
+                    f = self.call_function(State(), d, [f], {}, n, [])
+            finally:
+                self.stack.pop()
+            cache[id(fi)] = f
+        return cache[id(fi)]
+
+    def call_function(self, st: State, fi: FuncInfo, args, kwargs, n, tree, closure_env=None, raw=False):
+        if not raw and fi.node.decorator_list and closure_env is None and self.intrinsics.get(fi.qualname) is None:
+            w = self._decorated(fi, n)
+            if w is not None and w[0] != "rawfunc":
+                return self.apply(st, w, list(args), dict(kwargs), n, tree)
         q = fi.qualname
         line = getattr(n, "lineno", None)
         if self.stack and self.stack[-1].fi is not None:
@@ -3440,7 +3518,15 @@ class Interp:
             for name, dflt in _added_optional_params(fi):
                 if not (args and name in args):
                     st.env[name] = self.ev(st, dflt, tree)
-            out = self.exec_block(fi.node.body, st, tree)
+            w = self._decorated(fi) if fi.node.decorator_list else None
+            if w is not None and w[0] != "rawfunc":
+                # the name is bound to what the repository's decorators made of the function: that is what callers run
+                a_ = fi.node.args
+                rv_ = self.apply(st, w, [st.env[p_.arg] for p_ in a_.posonlyargs + a_.args], {}, fi.node, tree)
+                st.env["__ret__"] = rv_
+                out = Outcome(ret=st, retc=TRUE)
+            else:
+                out = self.exec_block(fi.node.body, st, tree)
         finally:
             self.stack.pop()
         rv = NONE
